@@ -107,6 +107,7 @@ pub fn prop() -> HistProp {
     w.ecfg = 2;
     w.vcfg = 2;
     w.rewire = 2;
+    w.intruder = 2;
     HistProp {
         id: "C03",
         level: "exploration",
